@@ -34,6 +34,9 @@ func (c *EvalCtx) lvalues(text string) []frameLoc {
 			m := ls[k].Match
 			ls[k].Match = func(x Term) Term { return and(cond, m(x)) }
 			cc := cond
+			if ls[k].Cond != nil {
+				cc = and(cond, *ls[k].Cond)
+			}
 			ls[k].Cond = &cc
 		}
 		return ls
@@ -93,7 +96,13 @@ func (c *EvalCtx) lvalues1(text string) []frameLoc {
 			return out
 		}
 		comp, cs := u.elemComp(et)
-		return []frameLoc{exact(comp, cs, base)}
+		// a nil slice has no backing array that could be written
+		l := exact(comp, cs, base)
+		nz := not(eq(base, intLit(0)))
+		m := l.Match
+		l.Match = func(x Term) Term { return and(nz, m(x)) }
+		l.Cond = &nz
+		return []frameLoc{l}
 	case strings.HasPrefix(text, "*"):
 		e, err := parseExpr(text[1:])
 		if err != nil {
@@ -489,6 +498,10 @@ func (u *Unit) callModifies(common *ssa.CallCommon, ms *modSet) {
 		return
 	}
 	if c.Pure {
+		return
+	}
+	if !c.HasModifies && len(c.Preserves) > 0 {
+		ms.addPreserving(c.Preserves)
 		return
 	}
 	if !c.HasModifies {
